@@ -57,4 +57,56 @@ __CPROVER_ensures(this->length == WV_HLEN_OF_TYPE(hashtype) && wv_flen0 == __CPR
 __CPROVER_ensures(fp->nwrites == __CPROVER_old(fp->nwrites) + 1 && fp->last_woff == writeMark && fp->last_wlen == WV_HLEN_OF_TYPE(hashtype))
 __CPROVER_ensures(fp->len == ((wv_u64)writeMark + WV_HLEN_OF_TYPE(hashtype) > __CPROVER_old(fp->len) ? (wv_u64)writeMark + WV_HLEN_OF_TYPE(hashtype) : __CPROVER_old(fp->len)))
 __CPROVER_ensures((wv_wP >= writeMark && wv_wP < (wv_u64)writeMark + WV_HLEN_OF_TYPE(hashtype)) ==> wv_wbyte == wv_tag[wv_wP - writeMark]);
+
+/* ---------------- FileHeader: reading side (C05, C06, C11, C12) */
+#define WV_FH_IN(h) (__CPROVER_is_fresh(h, sizeof(FileHeader)) && __CPROVER_is_fresh((h)->fp, sizeof(wv_FILE)) && WV_FILE_OPEN((h)->fp))
+#define WV_FB8(h, k) wv_filebyte((h)->fp->id, k)
+#define WV_MAGIC_OK(h) (WV_FB8(h, 0) == 0xC3 && WV_FB8(h, 1) == 0xA5 && WV_FB8(h, 2) == 0xC3 && WV_FB8(h, 3) == 0xA5 && \
+  WV_FB8(h, 4) == 0xC3 && WV_FB8(h, 5) == 0xA5 && WV_FB8(h, 6) == 0xC3 && WV_FB8(h, 7) == 0xA5)
+
+bool FileHeader__checkMn(FileHeader *this)
+__CPROVER_requires(WV_FH_IN(this))
+__CPROVER_assigns(this->fp->pos, this->fp->eof, wv_magic_ok)
+__CPROVER_ensures(__CPROVER_return_value == wv_magic_ok && wv_magic_ok == (this->fp->len >= 8 && WV_MAGIC_OK(this)) && this->fp->pos <= 8);
+
+void FileHeader__checkType(FileHeader *this)
+__CPROVER_requires(WV_FH_IN(this))
+__CPROVER_assigns(this->ctype, this->htype, this->fp->pos, this->fp->eof)
+__CPROVER_ensures(this->fp->len >= 10 ==> (this->ctype == WV_FB8(this, 8) && this->htype == WV_FB8(this, 9)))
+__CPROVER_ensures(this->fp->pos <= 10);
+
+/* the 64 bytes at offset 10 (tag area): NULL unless all of them are there */
+u8_t *FileHeader__getHmac(FileHeader *this, u8_t len)
+__CPROVER_requires(WV_FH_IN(this) && len == 64 && wv_gr < 64 && wv_rP == 10 + (unsigned long long)wv_gr)
+__CPROVER_assigns(WV_ARR(this->hash), this->fp->pos, this->fp->eof)
+__CPROVER_ensures((__CPROVER_return_value == NULL) == (this->fp->len < 74))
+__CPROVER_ensures(__CPROVER_return_value != NULL ==> (__CPROVER_return_value == this->hash && this->hash[wv_gr] == WV_FB8(this, 10 + (unsigned long long)wv_gr)));
+
+void FileHeader__getIV_2(FileHeader *this, FILE *fp, u8_t *iv)
+__CPROVER_requires(__CPROVER_is_fresh(this, sizeof(*this)) && this->num >= 1 && this->num <= 16 && __CPROVER_is_fresh(fp, sizeof(wv_FILE)) && WV_FILE_OPEN(fp) &&
+                   __CPROVER_is_fresh(iv, 320) && wv_gi < 320)
+__CPROVER_assigns(fp->pos, fp->eof, __CPROVER_object_whole(iv))
+__CPROVER_ensures((wv_rP == 48 + (unsigned long long)wv_gi && fp->len >= 48 + 20ull * this->num && wv_gi < 20u * this->num) ==> iv[wv_gi] == wv_filebyte(fp->id, 48 + (unsigned long long)wv_gi))
+__CPROVER_ensures(fp->len >= 48 + 20ull * this->num ==> fp->pos == 48 + 20ull * this->num);
+
+/* ---------------- FileHeader: writing side (C02, C13, C18) */
+/* IV table: IV 0 = SHA-1(seed string), IV i = SHA-1(IV i-1) (the chain is asserted in the body through the hash call log) */
+void FileHeader__getIV_1(FileHeader *this, const u8_t *r_buf, u8_t *iv)
+__CPROVER_requires(__CPROVER_is_fresh(this, sizeof(*this)) && this->num >= 1 && this->num <= 16 && wv_slen < (1ull << 31) &&
+                   __CPROVER_is_fresh(r_buf, wv_slen + 1) && r_buf[wv_slen] == 0 && __CPROVER_is_fresh(iv, 320))
+__CPROVER_requires(wv_g < 64 && wv_gr < 20 && wv_hl_n < (1ull << 50))
+__CPROVER_assigns(__CPROVER_object_whole(iv), wv_hl, wv_hl_out)
+__CPROVER_ensures(wv_hl_out == iv + 20 * (this->num - 1));
+
+#define WV_HDR_BYTE(h, iv, o) ((o) < 8 ? (((o) & 1) ? 0xA5 : 0xC3) : (o) == 8 ? (h)->ctype : (o) == 9 ? (h)->htype : (o) < 48 ? 0 : (iv)[(o) - 48])
+void FileHeader__getFileHeader(FileHeader *this, u8_t *iv)
+__CPROVER_requires(__CPROVER_is_fresh(this, sizeof(*this)) && this->num >= 1 && this->num <= 16 && __CPROVER_is_fresh(this->out, sizeof(wv_FILE)) &&
+                   this->out->open && this->out->pos < (1ull << 50) && this->out->len < (1ull << 50) && __CPROVER_is_fresh(iv, 320) && wv_wcount < (1ull << 60))
+__CPROVER_assigns(WV_FILE_WSTATE(this->out))
+__CPROVER_ensures(this->out->pos == __CPROVER_old(this->out->pos) + 48 + 20ull * this->num && this->out->nwrites == __CPROVER_old(this->out->nwrites) + 4 + this->num)
+__CPROVER_ensures(this->out->nbytes == __CPROVER_old(this->out->nbytes) + 48 + 20ull * this->num)
+/* every header byte is written exactly once, with the documented value (magic, modes, 38 zero bytes, the IV table) */
+__CPROVER_ensures((wv_wP >= __CPROVER_old(this->out->pos) && wv_wP < __CPROVER_old(this->out->pos) + 48 + 20ull * this->num) ?
+                  (wv_wcount == __CPROVER_old(wv_wcount) + 1 && wv_wbyte == WV_HDR_BYTE(this, iv, wv_wP - __CPROVER_old(this->out->pos))) :
+                  (wv_wcount == __CPROVER_old(wv_wcount) && wv_wbyte == __CPROVER_old(wv_wbyte)));
 #endif
